@@ -136,6 +136,15 @@ def _ival(n, env, lets, depth=0):
             return v
     if k == "lit" and "int" in n["v"]:
         return int(n["v"]["int"])          # (values beyond i64 are carried as strings in the fact files)
+    if k == "path" and "def" in n["res"] and (env.get("__consts__") or hirq.PROGRAM_CONSTS):
+        # a named integer constant (module-level or function-local `const`), value as evaluated by the compiler
+        cv = (env.get("__consts__") or hirq.PROGRAM_CONSTS).get(n["res"]["def"])
+        if isinstance(cv, dict):
+            cv = cv.get("v")
+        if isinstance(cv, str) and re.fullmatch(r"-?\d+", cv):
+            cv = int(cv)
+        if isinstance(cv, int) and not isinstance(cv, bool):
+            return cv
     if k == "path" and "def" in n["res"] and re.search(r"::(MAX|MIN|BITS)$", n["res"]["def"]) and env.get("__ty__") is not None:
         nm = env["__ty__"](n.get("t")) or ""
         m_ = re.fullmatch(r"([ui])(8|16|32|64|size)", nm)
